@@ -255,8 +255,10 @@ def r194(ctx, R):
              'self.id < MIN raises %s before %s' % (
                  exc.rsplit('.', 1)[1], inner),
              [src(x.test) for x in c08.raise_ifs(ctx, f, exc)], func=f)
-        okid = len(calls) == 1 and len(calls[0].args) > 1 and src(
-            calls[0].args[1]) == 'self.id'
+        callee = prog.func('%s:ResourceClass.%s' % (RCM, inner))
+        ida = C.arg_for_param(calls[0], callee, callee.params[1]) if len(
+            calls) == 1 and len(callee.params) > 1 else None
+        okid = ida is not None and src(ida) == 'self.id'
         R.ob('R19.4', 'ResourceClass.%s:acts-on-own-id' % meth, okid,
              'the row written is the object\'s own id',
              [src(c) for c in calls], func=f, nontrivial=False)
